@@ -184,18 +184,19 @@ func errName(err error) string {
 // shortReader delivers its data in drawn pieces, sometimes zero bytes,
 // sometimes (n>0, io.EOF) together.
 type shortReader struct {
-	rc      *RC
-	b       []byte
-	max     int
-	errAt   int // byte offset at which a read error is injected (-1: never)
-	err     error
-	eofWith bool
-	fired   *map[string]int
+	rc       *RC
+	b        []byte
+	max      int
+	errAt    int // byte offset at which a read error is injected (-1: never)
+	err      error
+	eofWith  bool
+	errFired bool
 }
 
 func (r *shortReader) Read(p []byte) (int, error) {
 	if r.errAt == 0 {
 		r.rc.Fire("readerr")
+		r.errFired = true
 		return 0, r.err
 	}
 	if len(r.b) == 0 {
